@@ -9,7 +9,7 @@
    struct / has an empty tuple variant.  Props/C07.v proves that such an item is reported as an error
    (never generated, never a panic); the check evaluates the same predicate against the real code. *)
 From Coq Require Import String.
-From TS Require Import Model.Str Model.Unicode Model.Syntax Model.Attrs Spec.Serde Spec.TargetOsRule Spec.C03Spec.
+From TS Require Import Model.Str Model.Outcome Model.Unicode Model.Syntax Model.Attrs Spec.Serde Spec.TargetOsRule Spec.C03Spec.
 
 Definition NEEDS_ONE : list str :=
   [lit "Vec"; lit "Option"; lit "Box"; lit "Weak"; lit "Arc"; lit "Rc"; lit "Cow"; lit "ArcWeak"; lit "RcWeak";
@@ -88,3 +88,20 @@ Definition front_incomplete_leaves (f : file) : nat :=
   List.length (filter (fun it => negb (leaf_complete it)) (expected_leaves T f)).
 Definition front_complete (f : file) : bool := forallb leaf_complete (expected_leaves T f).
 End U.
+
+(* ---- runs that fail at GENERATION time (every file parsed without error; a back end returns Err) ----
+   The CLI ends them with exit 1 and "typeshare failed to generate types: <message>".  Two kinds of such errors
+   (the constructors of Model/Outcome.v perr that a back end can return):
+   - the back end cannot express an ITEM of some source file (a const for Kotlin / Swift, a DateTime for Kotlin /
+     Scala / Swift, a map keyed by a generic parameter for TypeScript / Python): the property asks for a diagnostic
+     that names the offending file; the message names the item or type only (the per-crate ParsedData no longer
+     knows which file an item came from) - recorded finding C07-generation-error-no-file, class
+     [c07_item_rejection e = true] on the predicted error;
+   - the CONFIGURATION lacks a value (Scala without a package): there is no offending source file to name. *)
+Definition c07_item_rejection (e : perr) : bool :=
+  match e with
+  | EConstUnsupported _ | EUnsupportedSpecialType _ | EGenericKeyForbiddenInTS _ | EGenericsForbiddenInGo _ => true
+  | _ => false
+  end.
+Definition c07_config_rejection (e : perr) : bool :=
+  match e with EPackageRequired => true | _ => false end.
